@@ -189,6 +189,190 @@ def _site(mod, fi, call):
   return out
 
 
+_CALLS = {}
+
+
+def host_callees(key):
+  """host functions of /repo called (lexically) from host function `key`, incl. functions
+  passed by name as keyword arguments (wp.capture_while(..., while_body=f))"""
+  if key in _CALLS:
+    return _CALLS[key]
+  fi = extract.get_func(key)
+  out = []
+
+  def resolve(e):
+    if isinstance(e, ast.Name):
+      p = fi
+      while p is not None:
+        if e.id in p.nested:
+          return p.nested[e.id]
+        p = p.parent
+      r = extract.resolve_symbol(fi.module, e.id)
+      if r and r[0] == "func":
+        return r[1]
+    elif isinstance(e, ast.Attribute) and isinstance(e.value, ast.Name):
+      r = extract.resolve_symbol(fi.module, e.value.id)
+      if r and r[0] == "module":
+        r2 = extract.resolve_symbol(r[1], e.attr)
+        if r2 and r2[0] == "func":
+          return r2[1]
+    return None
+
+  stack = list(fi.node.body)
+  while stack:
+    n = stack.pop()
+    if isinstance(n, (ast.FunctionDef, ast.ClassDef, ast.Lambda)):
+      continue
+    if isinstance(n, ast.Call):
+      t = resolve(n.func)
+      if t is not None and t.kind == "host" and t.key not in out:
+        out.append(t.key)
+      for kw in n.keywords:
+        t = resolve(kw.value)
+        if t is not None and t.kind == "host" and t.key not in out:
+          out.append(t.key)
+      for a in n.args:
+        t = resolve(a) if isinstance(a, (ast.Name, ast.Attribute)) else None
+        if t is not None and t.kind == "host" and t.key not in out and not isinstance(n.func, ast.Attribute):
+          out.append(t.key)
+    stack.extend(ast.iter_child_nodes(n))
+  _CALLS[key] = out
+  return out
+
+
+def reachable_hosts(root):
+  seen = []
+  todo = [root]
+  while todo:
+    k = todo.pop()
+    if k in seen:
+      continue
+    seen.append(k)
+    try:
+      todo.extend(host_callees(k))
+    except KeyError:
+      pass
+  return seen
+
+
+def reachable_sites(root):
+  hs = set(reachable_hosts(root))
+  return [s for s in all_sites() if s.host in hs]
+
+
+def _subst_text(expr, env):
+  """replace a leading identifier of `expr` that is a host parameter by the caller's actual"""
+  import re
+
+  m = re.match(r"^([A-Za-z_][A-Za-z_0-9]*)(.*)$", expr, re.S)
+  if not m:
+    return expr
+  head, rest = m.group(1), m.group(2)
+  if head in env and (rest == "" or rest[0] in ".[("):
+    return env[head] + rest
+  return expr
+
+
+def bound_sites(root, max_depth=8):
+  """launch sites reachable from `root`, with actuals expressed in terms of root's own names:
+  parameters of intermediate host functions are substituted by what their callers pass
+  (textual, one identifier at the head of the expression). A local alias `x = <expr>` of an
+  intermediate function is substituted when it is assigned exactly once."""
+  out = []
+
+  def local_aliases(fi):
+    cnt = {}
+    val = {}
+    for n in ast.walk(fi.node):
+      if isinstance(n, ast.Assign) and len(n.targets) == 1 and isinstance(n.targets[0], ast.Name):
+        cnt[n.targets[0].id] = cnt.get(n.targets[0].id, 0) + 1
+        val[n.targets[0].id] = ast.unparse(n.value)
+    return {k: v for k, v in val.items() if cnt[k] == 1}
+
+  def visit(key, env, depth, chain):
+    if depth > max_depth or key in chain:
+      return
+    try:
+      fi = extract.get_func(key)
+    except KeyError:
+      return
+    env = dict(env)
+    for k, v in local_aliases(fi).items():
+      if k not in env:
+        env[k] = _subst_text(v, env)
+    for s in all_sites():
+      if s.host == key:
+        b = {f: _subst_text(a, env) for f, a in s.binding.items()}
+        c = {f: _subst_text(a, env) for f, a in s.closure.items()}
+        out.append(Site(s.host, s.lineno, s.kernel, c, _subst_text(s.dim, env), b, s.tiled, " <- ".join(chain + [key]), s.n_actuals))
+    stack = list(fi.node.body)
+    while stack:
+      n = stack.pop()
+      if isinstance(n, (ast.FunctionDef, ast.ClassDef, ast.Lambda)):
+        continue
+      if isinstance(n, ast.Call):
+        tgt, via_kw = None, None
+        cands = [(n.func, None)] + [(kw.value, kw.arg) for kw in n.keywords if isinstance(kw.value, (ast.Name, ast.Attribute))]
+        for e, kwname in cands:
+          t = _resolve_host(fi, e)
+          if t is not None:
+            tgt, via_kw = t, kwname
+            break
+        if tgt is not None:
+          params = [a.arg for a in tgt.node.args.args]
+          cenv = {}
+          if via_kw is None:
+            for p, a in zip(params, n.args):
+              cenv[p] = _subst_text(ast.unparse(a), env)
+          for kw in n.keywords:
+            if kw.arg in params:
+              cenv[kw.arg] = _subst_text(ast.unparse(kw.value), env)
+          visit(tgt.key, cenv, depth + 1, chain + [key])
+      stack.extend(ast.iter_child_nodes(n))
+
+  visit(root, {}, 0, [])
+  return out
+
+
+def _resolve_host(fi, e):
+  t = None
+  if isinstance(e, ast.Name):
+    p = fi
+    while p is not None and t is None:
+      if e.id in p.nested:
+        t = p.nested[e.id]
+      p = p.parent
+    if t is None:
+      r = extract.resolve_symbol(fi.module, e.id)
+      if r and r[0] == "func":
+        t = r[1]
+  elif isinstance(e, ast.Attribute) and isinstance(e.value, ast.Name):
+    r = extract.resolve_symbol(fi.module, e.value.id)
+    if r and r[0] == "module":
+      r2 = extract.resolve_symbol(r[1], e.attr)
+      if r2 and r2[0] == "func":
+        t = r2[1]
+  if t is not None and t.kind == "host":
+    return t
+  return None
+
+
+def site_aliases(site):
+  """formals of a site that receive textually the same array actual: formal -> first such formal"""
+  first = {}
+  out = {}
+  for f, a in site.binding.items():
+    if not a or a[0].isdigit() or a in ("True", "False", "None"):
+      continue
+    if "." not in a and "[" not in a and not a.isidentifier():
+      continue
+    if a in first:
+      out[f] = first[a]
+    else:
+      first[a] = f
+  return out
+
+
 def sites_of_kernel(key):
   return [s for s in all_sites() if s.kernel == key]
 
